@@ -25,16 +25,17 @@ EXPLANATION = (
     "violating n and its predecessor are replayed on the unmodified function. (b) round trip parse_bytes(format_bytes(n)) within the "
     "printed precision: checked natively on the witnesses of every path class of (a) (boundary sampling per solver class, not an "
     "all-values claim). (c) unit tables: every byte_sizes / timedelta_sizes spelling x every letter-case mask x a symbolic integer "
-    "mantissa (concretised at str()): result == mantissa * documented multiplier. (d) CrossHair on free strings: parse_bytes raises "
-    "only ValueError and returns int, key_split and natural_sort_key are total with the documented shapes.")
+    "mantissa (concretised at str()): result == mantissa * documented multiplier. (d) totality of parse_bytes (only ValueError, int result), "
+    "key_split and natural_sort_key (documented shapes) on EVERY string of length <= 3-4 over a 20-character alphabet, solver-enumerated; "
+    "CrossHair additionally hunts for counterexamples over free strings within a time box (not counted as an obligation).")
 ASSUMPTIONS = [
     "integer model of float(n) for 0 <= n < 2**63 (round-half-even to 53 bits) and of '.2f' formatting (correctly rounded, ties to even): "
     "validated natively on every path model and on the decisive boundary computed by z3",
     "the placeholder string returned by the proxy's __format__ has the right length but placeholder digits: the harness of (a) only reads its length",
     "CrossHair conditions that do not come back 'Confirmed over all paths' are bug-hunts within the time box, reported as inconclusive",
 ]
-STUBS = ["SInt subclass whose / by a power of two returns the exact float(n)/k proxy with a symbolic '.2f' __format__"]
-ENUM = ["unit spelling, letter-case mask, mantissa (via str())"]
+STUBS = ["str()/format() of the symbolic n returns a placeholder with the right number of digits (forks on the digit count, not on the value)", "SInt subclass whose / by a power of two returns the exact float(n)/k proxy with a symbolic '.2f' __format__"]
+ENUM = ["unit spelling, letter-case mask, mantissa (via str())", "the characters of strings[...] (20-character alphabet)"]
 OUTSIDE = ["n >= 2**60", "format_time", "fractional mantissas in parse_bytes/parse_timedelta (float parsing)"]
 BOUNDS = {"quick": dict(format_bytes="all n in [0, 2**60)", units="all spellings; all case masks up to 3 letters, 4 masks for longer names; mantissa in [0, 12]", crosshair="len(s) <= 4-5, 25 s per condition"),
           "thorough": dict(format_bytes="all n in [0, 2**60)", units="all spellings; all case masks up to 3 letters, 4 masks for longer names; mantissa in [0, 40]", crosshair="len(s) <= 4-5, 240 s per condition")}
@@ -96,6 +97,7 @@ class SIntFB(SInt):
 
 def mk_format_bytes():
     def setup(e):
+        e.opaque_str = "len"      # f"{n} B": a placeholder with the right number of digits (the harness reads only the length)
         n = e.int("n", 0, 2 ** 60 - 1)
         return (n,)
 
@@ -172,9 +174,34 @@ def mk_units(which, hi):
     return Obligation(f"units[{which}]", setup, run)
 
 
+ALPHABET = ("0", "1", "9", ".", "e", "-", " ", "k", "K", "i", "B", "b", "m", "s", "x", "_", "(", "'", "\u00b2", "\u0663")
+
+
+def mk_strings(L):
+    """totality of parse_bytes / key_split / natural_sort_key on EVERY string of length <= L over a 20-character alphabet (digits, sign,
+    dot, exponent, unit letters, key punctuation, a superscript two and an Arabic-Indic three): solver-enumerated characters
+    (CrossHair additionally hunts over free strings, see extra())"""
+    from props import ch_c18 as CH
+
+    def setup(e):
+        n = e.choice("len", L + 1)
+        return ("".join(ALPHABET[e.choice(f"ch{i}", len(ALPHABET))] for i in range(n)),)
+
+    def run(e, text):
+        e.check(CH._pb_ok(text), f"parse_bytes({text!r}) raises something other than ValueError or returns a non-int")
+        e.check(CH._ks_ok(text), f"key_split({text!r}) is not a str")
+        e.check(CH._nsk_ok(text), f"natural_sort_key({text!r}) is not a list of str/int parts that spells the input")
+        for key in ((text, 1), (text.encode(), 0), ((text, (text, 2)), 3)):
+            r = U.key_split(key)
+            e.check(isinstance(r, str), f"key_split({key!r}) is not a str")
+        return len(text)
+
+    return Obligation(f"strings[len<={L},alphabet={len(ALPHABET)}]", setup, run)
+
+
 def obligations(tier):
     hi = 12 if tier == "quick" else 40
-    return [mk_format_bytes(), mk_units("bytes", hi), mk_units("time", hi)]
+    return [mk_format_bytes(), mk_units("bytes", hi), mk_units("time", hi), mk_strings(3 if tier == "quick" else 4)]
 
 
 def _boundary_witnesses():
@@ -204,7 +231,7 @@ def _boundary_witnesses():
 
 def extra(tier, known, seed):
     t = 25 if tier == "quick" else 240
-    ex = ch.run_contracts("props.ch_c18", ["parse_bytes_total", "key_split_total", "natural_sort_key_total"], t, known, PROPERTY)
+    ex = ch.run_contracts("props.ch_c18", ["parse_bytes_total", "key_split_total", "natural_sort_key_total"], t, known, PROPERTY, hunt_only=True)
     # decisive boundary of (a), replayed on the real function
     T = _boundary_witnesses()
     ex["obligations"] += 1
